@@ -18,8 +18,12 @@ import (
 	"errors"
 	"fmt"
 	"os"
+	"strings"
 	"sync"
 	"time"
+
+	"github.com/AliceO2Group/Control/common/event"
+	odcevent "github.com/AliceO2Group/Control/core/integration/odc/event"
 
 	"verif/harness/envlab"
 )
@@ -41,10 +45,20 @@ type AutoCase struct {
 // leaves them out).
 var teardownWhileRunning = os.Getenv("VERIF_C01_AUTOSTOP_TEARDOWN_RUNNING") != "0"
 
+// odcDuringTeardown: the other transition that belongs to no request - ODC reports its partition in ERROR
+// while the environment is RUNNING; the manager's handler goroutine tries STOP_ACTIVITY, GO_ERROR and
+// finally forces ERROR. In this variant the report arrives while a forced teardown is at its
+// leave_RUNNING hooks (it holds the transition mutex, the environment still says RUNNING): the handler's
+// goroutine waits at the mutex and goes on when the environment is DONE.
+var odcDuringTeardown = os.Getenv("VERIF_C01_ODC_TEARDOWN") != "0"
+
 func autoVariants() []string {
 	v := []string{"error-then-teardown", "manual-stop", "timer-stops", "error-then-teardown", "timer-stop-fails", "failed-start"}
 	if teardownWhileRunning {
 		v = append(v, "teardown-while-running", "timeout-during-teardown")
+	}
+	if odcDuringTeardown {
+		v = append(v, "odc-error-during-teardown")
 	}
 	return v
 }
@@ -102,10 +116,24 @@ func execAuto(w *envlab.World, ac AutoCase) (*autoOutcome, error) {
 	slow := map[string]time.Duration{}
 	setFail := func(tr string, on bool) { mu.Lock(); fail[tr] = on; mu.Unlock() }
 	setSlow := func(tr string, d time.Duration) { mu.Lock(); slow[tr] = d; mu.Unlock() }
+	odcArmed, odcSent := false, false
 	lab.OnProbe = func(pi envlab.ProbeInfo) envlab.ProbeAction {
 		mu.Lock()
 		f, d := fail[pi.Trigger], slow[pi.Trigger]
+		report := odcArmed && !odcSent && strings.HasPrefix(pi.Trigger, "leave_RUNNING")
+		if report {
+			odcSent = true
+		}
 		mu.Unlock()
+		if report {
+			lab.Add(envlab.Record{Kind: "note_odc", Msg: "ODC partition state ERROR reported", State: lab.Env.CurrentState()})
+			lab.W.Mgr.NotifyIntegratedServiceEvent(&odcevent.OdcPartitionStateChangeEvent{
+				IntegratedServiceEventBase: event.IntegratedServiceEventBase{ServiceName: "ODC"},
+				EnvironmentId:              lab.Env.Id(), State: "ERROR", EcsState: "RUNNING"})
+			if d < 80*time.Millisecond {
+				d = 80 * time.Millisecond // the handler's goroutine gets to the transition mutex meanwhile
+			}
+		}
 		return envlab.ProbeAction{Fail: f, Sleep: d}
 	}
 	out := &autoOutcome{Case: ac}
@@ -204,6 +232,34 @@ func execAuto(w *envlab.World, ac AutoCase) (*autoOutcome, error) {
 		start()
 		td()
 		waitTimer()
+	case "odc-error-during-teardown":
+		start()
+		mu.Lock()
+		odcArmed = true
+		mu.Unlock()
+		pause(td)
+		// the handler's goroutine (bounded: two refused transitions) has to be through
+		pause(func() {
+			deadline := time.Now().Add(5 * time.Second)
+			for time.Now().Before(deadline) {
+				busy := false
+				for _, g := range envlab.Goroutines() {
+					if g.Has(fnOdcHandler) {
+						busy = true
+					}
+				}
+				if !busy {
+					break
+				}
+				time.Sleep(2 * time.Millisecond)
+			}
+		})
+		mu.Lock()
+		if !odcSent {
+			out.Anomaly = "the teardown ran no leave_RUNNING probe: ODC report not delivered"
+		}
+		mu.Unlock()
+		waitTimer()
 	case "timeout-during-teardown":
 		// a leave_RUNNING hook of the teardown outlasts the timeout: the timer fires while the teardown
 		// holds the transition mutex, its goroutine waits there and goes on when the environment is DONE
@@ -296,6 +352,8 @@ func checkAuto(out *autoOutcome) ([]viol, map[string]int64) {
 			}
 		case "note":
 			cnt["autostop_timer_did_not_end_run"]++
+		case "note_odc":
+			cnt["odc_error_reports_during_teardown"]++
 		}
 	}
 	if os.Getenv("VERIF_AUTO_DEBUG") != "" {
